@@ -5,7 +5,7 @@
 //@ entry h_ser_cls_SchemaGrammar
 //@ note L: loop-free; the real body of SchemaGrammar::serialize runs twice on one object: store mode onto the tape, then -- after the whole object has been given arbitrary values again -- load mode from the tape; every member value is symbolic (full range of its real type)
 //@ note tape engine (contracts/ser_tape.inc): operator<< / operator>> / writeSize / readSize / writeString / readString and the sub-object serialisers (XTemplateSerializer::storeObject/loadObject, DatatypeValidator::storeDV/loadDV, Base::serialize ...) are trusted stubs that record / check (type tag, value); the tag of a streamed operand comes from its REAL type (member types from the real class declaration, casts from the code) via _Generic; strings, containers and pointers to serialisable objects are opaque ids (the pointer value stands for the object; loading yields the id that was stored); the byte-level engine is the subject of units ser_primitives, ser_fillflush, ser_rawbytes
-//@ note STRICT variant of unit ser_cls_SchemaGrammar: additionally compares fScopeCount and fAnonTypeCount, the counters from which TraverseSchema numbers the scopes / anonymous types it ADDS to an existing grammar (SchemaGrammar::getScopeCount / setScopeCount, "in case we need to add more to this grammar (multi-import case)"): they are part of the state of a grammar that can still be extended, so a restored grammar must carry them
+//@ note compares also fScopeCount and fAnonTypeCount, the counters from which TraverseSchema numbers the scopes / anonymous types it ADDS to an existing grammar (SchemaGrammar::getScopeCount / setScopeCount, "in case we need to add more to this grammar (multi-import case)"): they are part of the state of a grammar that can still be extended, so a restored grammar must carry them
 //@ note compared after load (store then load restores the value): fTargetNamespace, fElemDeclPool, fGroupElemDeclPool, fNotationDeclPool, fAttributeDeclRegistry, fComplexTypeRegistry, fGroupInfoRegistry, fAttGroupInfoRegistry, fValidSubstitutionGroups, fAnnotations, fValidated, fScopeCount, fAnonTypeCount; NOT compared: fElemNonDeclPool (elements faulted in during validation: deliberately not stored), fGramDesc and fDatatypeRegistry (objects made by the constructor, serialised IN PLACE in both modes: position on the tape checked, fGramDesc pointer must stay), fMemoryManager (not persistent state: the loading object keeps its own)
 //@ note the datatype-validator factory (embedded member) and the grammar description (constructor-made object) are serialised in place by their own serialize(): one tape record each, whose position and identity are checked in load mode
 #define VERIF_DEFINE_GHOSTS
